@@ -841,6 +841,10 @@ pub struct MadeP {
     pub ptr_on: Vec<(String, Vec<u32>)>,
     pub horizon: u64,
     pub final_snapshot: Option<mdns_sd::verif::Snapshot>,
+    /// The interface that goes (Gone) or is switched off (Disabled: always eth1).
+    pub lost: u32,
+    /// Gone cases, sometimes: the other of eth0 / eth1 goes as well, later: (time, trace index, snapshot at the end).
+    pub second_loss: Option<(u64, usize, Option<mdns_sd::verif::Snapshot>)>,
 }
 
 fn p_table() -> Vec<IfSpec> {
@@ -909,13 +913,14 @@ pub fn scenario_p(seed: u64) -> MadeP {
     let host_chan = if rng.chance(1, 2) { w.resolve_hostname(h, "instc-host.local.", None) } else { None };
     w.run_for(1500 + rng.below(1500));
     // the loss
+    let lost: u32 = if rng.chance(1, 2) { 3 } else { 2 };
     let loss = match rng.below(9) {
         0 => {
-            table.retain(|i| i.index != 3);
+            table.retain(|i| i.index != lost);
             Loss::Gone("interface-removed")
         }
         1 => {
-            table.iter_mut().find(|i| i.index == 3).unwrap().up = false;
+            table.iter_mut().find(|i| i.index == lost).unwrap().up = false;
             Loss::Gone("interface-down")
         }
         2 => Loss::Disabled(vec![Kind::Name("eth1".into())], vec![(3, true), (3, false)]),
@@ -942,7 +947,9 @@ pub fn scenario_p(seed: u64) -> MadeP {
             settle_ms = 0;
         }
     }
-    let desc = format!("interfaces={} loss={:?} hostname-search={} mixed-case-hosts={mixed_case}", table.len(), loss, host_chan.is_some());
+    let lost = if matches!(loss, Loss::Gone(_)) { lost } else { 3 };
+    let surviving = if lost == 3 { 2 } else { 3 };
+    let desc = format!("interfaces={} loss={:?} of #{lost} hostname-search={} mixed-case-hosts={mixed_case}", table.len(), loss, host_chan.is_some());
     w.run_for(settle_ms + 200 + rng.below(600));
     // later events: a second search (answered from the cache), a changed TXT of instc on the surviving link, a host name search
     chans.extend(w.browse(h, ty));
@@ -951,14 +958,28 @@ pub fn scenario_p(seed: u64) -> MadeP {
     s.txt = wire::txt_encode(&[(b"k".to_vec(), Some(b"changed".to_vec()))]);
     let mut m = Message::response();
     m.answers.push(s.txt());
-    let spec0 = table.iter().find(|i| i.index == 2).unwrap().clone();
-    w.inject_msg(h, 2, peer_on(&spec0, true), &m);
+    let spec0 = table.iter().find(|i| i.index == surviving).unwrap().clone();
+    w.inject_msg(h, surviving, peer_on(&spec0, true), &m);
     w.run_for(300 + rng.below(500));
     let late_host_chan = w.resolve_hostname(h, "instc-host.local.", None);
     let horizon = w.now() + 2500;
     w.run_until(horizon);
     let final_snapshot = w.snapshot(h);
-    MadeP { world: w, desc, loss, t_loss, idx_loss, chans, host_chan: late_host_chan.or(host_chan), learned, ptr_on, horizon, final_snapshot }
+    // sometimes the other interface goes as well: then nothing of what was learned is left
+    let mut second_loss = None;
+    if matches!(loss, Loss::Gone(_)) && rng.chance(1, 2) {
+        if rng.chance(1, 2) {
+            table.retain(|i| i.index != surviving);
+        } else {
+            table.iter_mut().find(|i| i.index == surviving).unwrap().up = false;
+        }
+        let t2 = w.now();
+        w.set_ifs(h, table.clone(), "second-interface-gone");
+        let idx2 = w.trace.entries.len() - 1;
+        w.run_for(FLUX_MS + 300 + rng.below(500));
+        second_loss = Some((t2, idx2, w.snapshot(h)));
+    }
+    MadeP { world: w, desc, loss, t_loss, idx_loss, chans, host_chan: late_host_chan.or(host_chan), learned, ptr_on, horizon, final_snapshot, lost, second_loss }
 }
 
 pub fn monitor_p(made: &MadeP, l: &mut Local) {
@@ -967,7 +988,7 @@ pub fn monitor_p(made: &MadeP, l: &mut Local) {
     let full = |label: &str| format!("{label}.{ty}");
     // what must no longer be reported: (address, interface) pairs learned on the lost links
     let lost_link = |ifi: u32, over4: bool| match &made.loss {
-        Loss::Gone(_) => ifi == 3,
+        Loss::Gone(_) => ifi == made.lost,
         Loss::Disabled(_, links) => links.contains(&(ifi, over4)),
     };
     let (t_judge, what) = match &made.loss {
@@ -1025,7 +1046,7 @@ pub fn monitor_p(made: &MadeP, l: &mut Local) {
         for (label, ifs) in made.ptr_on.iter() {
             let removed = trace.entries.iter().skip(made.idx_loss).any(|e| e.t <= deadline && matches!(&e.ev, Ev::Obs { chan, obs: Obs::Removed(_, name) } if *chan == made.chans[0] && name.eq_ignore_ascii_case(&full(label))));
             l.act("I4-removed");
-            let only_there = ifs.iter().all(|i| *i == 3);
+            let only_there = ifs.iter().all(|i| *i == made.lost);
             if only_there && !removed {
                 l.violate(Violation::new("I4", format!("I4/no-ServiceRemoved-for-instance-learned-only-there/{class}"), format!("{label} was learned only on the interface that disappeared but was not reported removed")).with(wit()));
                 return;
@@ -1037,7 +1058,7 @@ pub fn monitor_p(made: &MadeP, l: &mut Local) {
         }
         // I4b: instc lost records but not its PTR: resolved again with what is left
         l.act("I4-reresolved");
-        let left: BTreeSet<IpAddr> = made.learned.iter().filter(|(lb, _, i, _)| lb == "instc" && *i != 3).map(|(_, a, _, _)| *a).collect();
+        let left: BTreeSet<IpAddr> = made.learned.iter().filter(|(lb, _, i, _)| lb == "instc" && *i != made.lost).map(|(_, a, _, _)| *a).collect();
         let again: Vec<BTreeSet<IpAddr>> = trace
             .entries
             .iter()
@@ -1062,8 +1083,27 @@ pub fn monitor_p(made: &MadeP, l: &mut Local) {
         // I4c: hooked state: nothing learned on the interface is left in the cache
         if let Some(snap) = made.final_snapshot.as_ref() {
             l.act("I4-cache");
-            if let Some(r) = snap.cache_records.iter().find(|r| r.if_index == 3) {
+            if let Some(r) = snap.cache_records.iter().find(|r| r.if_index == made.lost) {
                 l.violate(Violation::new("I4", format!("I4/record-of-lost-interface-still-cached/{class}"), format!("the cache still holds {} (type {}) learned on the interface that disappeared", r.name, r.ty)).with(wit()));
+                return;
+            }
+        }
+        // I4d: the other interface went as well: every instance is reported removed, nothing of either is cached
+        if let Some((t2, idx2, snap2)) = made.second_loss.as_ref() {
+            l.act("I4-second-loss");
+            let wit2 = || json!({"scenario": made.desc, "trace": scen::witness_window(trace, t2.saturating_sub(10), t2 + FLUX_MS + 800, 60)});
+            for (label, _) in made.ptr_on.iter() {
+                let removed = trace.entries.iter().skip(made.idx_loss).any(|e| matches!(&e.ev, Ev::Obs { chan, obs: Obs::Removed(_, name) } if made.chans.contains(chan) && name.eq_ignore_ascii_case(&full(label))));
+                if !removed {
+                    l.violate(Violation::new("I4", format!("I4/no-ServiceRemoved-after-the-last-interface-went/{class}"), format!("both interfaces {label} was learned on are gone, yet it was never reported removed")).with(wit2()));
+                    return;
+                }
+            }
+            let _ = idx2;
+            if let Some(snap) = snap2.as_ref() {
+                if let Some(r) = snap.cache_records.iter().find(|r| r.if_index == 2 || r.if_index == 3) {
+                    l.violate(Violation::new("I4", format!("I4/record-still-cached-after-the-last-interface-went/{class}"), format!("the cache still holds {} (type {}, tagged #{}) although every interface it was learned on is gone", r.name, r.ty, r.if_index)).with(wit2()));
+                }
             }
         }
     }
@@ -1077,7 +1117,7 @@ pub fn run_p(seed: u64, l: &mut Local) {
         l.inconclusive.push(format!("daemon died in a C18 scenario (seed {seed})"));
         return;
     }
-    l.distinct.insert(util::fnv_str(&format!("P|{:?}|{}", made.loss, made.host_chan.is_some())));
+    l.distinct.insert(util::fnv_str(&format!("P|{:?}|{}|{}|{}", made.loss, made.host_chan.is_some(), made.lost, made.second_loss.is_some())));
     monitor_p(&made, l);
 }
 
@@ -1089,12 +1129,13 @@ pub fn run(report: &Report, tier: &Tier) {
          the hooked state; a fresh search's first query on the wire) and announcements injected on every link, on or off. part E: the same topologies \
          and operations around 1..3 registrations with explicit addresses (subsets of the host's, sometimes a foreign one) or automatic addresses, \
          10..29 questions injected on any link; every packet judged by link, subnet and address set. part P: a browser on two or three interfaces learns \
-         instances on one, the other or both (IPv4 and IPv6, one address known on both); then eth1 is removed / down / disabled by Name, IndexV4+IndexV6, \
-         Addr, IndexV6, IPv6 or Predicate; a second browse, a TXT update and a host-name search force later events; distinct by operation sequence / loss kind",
+         instances on one, the other or both (IPv4 and IPv6, one address known on both); then eth1 (or, removed / down, eth0) is removed / down / disabled by Name, IndexV4+IndexV6, \
+         Addr, IndexV6, IPv6 or Predicate; a second browse, a TXT update and a host-name search force later events; in half of the removed / down cases the other interface goes too; distinct by operation sequence / loss kind",
     );
     for r in ["I3-state", "I3-wire", "I3-egress", "I3-ingress", "I1-link", "I1-addr", "I1-announced", "I2-follows", "I4-removed", "I4-reresolved", "I4-cache", "I5"] {
         report.floor(r, 50);
     }
+    report.floor("I4-second-loss", 20);
     report.assume("nothing is judged for one interface-check interval after an edit of the interface table (the daemon cannot know yet)");
     report.assume("a family with an address of the service in the link's subnet is what 'an address in the same subnet' means per packet; link-local IPv6 prefixes are the same subnet on every link");
     let seed = report.seed;
